@@ -89,6 +89,7 @@ type Interp struct {
 	calledFns    map[*ssa.Function]bool
 	rtypeT       *types.Named
 	onceDone     map[*Value]bool
+	onceSnap     map[*Value]bool
 	wgCount      map[*Value]int64
 	lastPanicMsg string
 	lastPos      token.Pos
